@@ -2,6 +2,8 @@ package validator
 
 import (
 	"context"
+	"errors"
+	"fmt"
 	"github.com/aml-org/amf-custom-validator/internal/generator"
 	"github.com/aml-org/amf-custom-validator/internal/parser"
 	e "github.com/aml-org/amf-custom-validator/pkg/events"
@@ -21,7 +23,16 @@ func ProcessProfile(profileText string, debug bool, eventChan *chan e.Event) (*r
 	return CompileRego(regoUnit, eventChan)
 }
 
-func GenerateRego(profileText string, debug bool, eventChan *chan e.Event) (*generator.RegoUnit, error) {
+func GenerateRego(profileText string, debug bool, eventChan *chan e.Event) (unit *generator.RegoUnit, err error) {
+	// The parser and the generator signal several kinds of malformed profile (unknown prefix, empty
+	// and/or list, unparsable IRI, ...) by panicking; callers of the library get an error instead
+	defer func() {
+		if r := recover(); r != nil {
+			unit = nil
+			err = errors.New(fmt.Sprintf("invalid profile: %v", r))
+		}
+	}()
+
 	// Parse profile
 	dispatchEvent(e.NewEvent(e.ProfileParsingStart), eventChan)
 	parsed, err := parser.Parse(profileText)
